@@ -570,6 +570,20 @@ func run(c *hx.Ctx) {
 		res.WriteCases("Run.Run_C03", cases)
 		return
 	}
+	// corpus first: minimised earlier findings (replay files)
+	if files, _ := filepath.Glob("corpus/C03/*.json"); len(files) > 0 {
+		for _, f := range files {
+			var rp struct {
+				Replay struct {
+					Case Case `json:"case"`
+				} `json:"replay"`
+			}
+			if b, err := os.ReadFile(f); err == nil && json.Unmarshal(b, &rp) == nil && len(rp.Replay.Case.Plan) > 0 {
+				doCase(rp.Replay.Case, true)
+				res.Count("corpus-cases")
+			}
+		}
+	}
 	// the store's own threshold: a few histories in which the harness waits 5 s before one block
 	// step (they sleep concurrently)
 	type natRes struct {
